@@ -1,12 +1,16 @@
 import Mdns.Model.Cache
 import Mdns.Lemmas.Sched
+import Mdns.Props.C17
+import Mdns.Lemmas.ClientEvolve
+import Mdns.Lemmas.ClientDistinct
 /-
   C20  State stays bounded: expired data is forgotten.
 
-  Model: `Mdns/Model/Cache.lean` (eviction, compared op by op with the real `DnsCache` in
-  `./check C11`) and `Mdns/Model/Sched.lean` (timers).  The daemon-level clause - the
-  metrics the daemon reports after every TTL has passed, and the amount of data kept for
-  names nobody asked for - is decided by the monitor `ok_C20` on real histories.
+  First part: `Mdns/Model/Cache.lean` (eviction, compared op by op with the real `DnsCache` in
+  `./check C11`) and `Mdns/Model/Sched.lean` (timers).  Second part (`section ClientModel`):
+  whole histories of the client model `Mdns/Model/Client.lean` (compared with the real daemon
+  per iteration, metrics included).  The amount of data kept for names nobody asked for is
+  decided by the monitor `ok_C20` on real histories (known finding D25).
 -/
 namespace Mdns.Props.C20
 open Mdns Mdns.Rec Mdns.Rec.Record Mdns.Cache
@@ -74,5 +78,371 @@ example : allExpired 200000 [([0x69], [orphan])] := by
   simp at hp; subst hp
   simp at he; subst he
   decide
+
+/-! ### whole histories of the client model -/
+
+section ClientModel
+open Mdns.Client
+
+/-- the number of records in the five tables of the cache, as `get_metrics` reports them -/
+def cachedTotal (s : State) : Nat :=
+  (metricsOf s).ptr + (metricsOf s).srv + (metricsOf s).txt + (metricsOf s).addr + (metricsOf s).nsec
+
+/-- **cache_bounded (whole histories).**  Start the daemon and run ANY history: every entry of
+    every table of the cache is the copy of a record that was delivered to the daemon (same
+    owner, type, class, cache-flush bit and RDATA; created at the delivery with its TTL), filed
+    under its own name, and that record's lifetime has not ended at the time of the last
+    iteration.  Nothing is cached that was not received, and nothing outlives its TTL by even
+    one iteration. -/
+theorem cache_bounded (t0 : Nat) (intfs : List Intf) (h : List (Nat × List Packet × List Command))
+    (sl : Slot) (p : BList × List Entry) (hp : p ∈ (run (init t0 intfs) h).1.cache.table sl) (e : Entry) (he : e ∈ p.2) :
+    Filed sl p.1 e ∧
+    ∃ d ∈ C03.histOf (init t0 intfs) h, Justifies d e ∧ C17.lastTime 0 h < d.time + 1000 * d.wire.ttl := by
+  obtain ⟨⟨d, hd, j⟩, hf⟩ := C17.run_prov h t0 intfs sl p hp e he
+  have hl := C17.run_live h (init t0 intfs) 0 (cacheAll_empty _) sl p hp e he
+  refine ⟨hf, d, hd, j, ?_⟩
+  have := j.2.2.2.2.2.2.2
+  simp only at hl
+  omega
+
+/-- **drained (cache; whole histories).**  Run ANY history and then an iteration at `now`
+    (with whatever input).  If the lifetime of every record delivered so far - this iteration
+    included - has ended by `now`, the iteration leaves all five tables of the cache empty
+    (no record, no name), whether or not searches are still open; the cache counters of
+    `get_metrics` are all 0. -/
+theorem drained_cache (t0 : Nat) (intfs : List Intf) (pre : List (Nat × List Packet × List Command))
+    (now : Nat) (pkts : List Packet) (cmds : List Command)
+    (hover : ∀ d ∈ C03.histOf (init t0 intfs) (pre ++ [(now, pkts, cmds)]), d.time + 1000 * d.wire.ttl ≤ now) :
+    let s' := (iter (run (init t0 intfs) pre).1 now pkts cmds).1
+    s'.cache.ptr = [] ∧ s'.cache.srv = [] ∧ s'.cache.txt = [] ∧ s'.cache.addr = [] ∧ s'.cache.nsec = [] ∧
+    cachedTotal s' = 0 := by
+  have hprov := (ok_iter _ _ now pkts cmds (C17.run_prov pre t0 intfs)).1
+  have hlive := iter_allLive (run (init t0 intfs) pre).1 now pkts cmds
+  have hhist : C03.histOf (init t0 intfs) (pre ++ [(now, pkts, cmds)]) =
+      C03.histOf (init t0 intfs) pre ++ deliveries (run (init t0 intfs) pre).1 now pkts := by
+    rw [C17.histOf_append]
+    simp [C03.histOf]
+  rw [hhist] at hover
+  have hnone : ∀ sl : Slot, (iter (run (init t0 intfs) pre).1 now pkts cmds).1.cache.table sl = [] := by
+    intro sl
+    cases ht : (iter (run (init t0 intfs) pre).1 now pkts cmds).1.cache.table sl with
+    | nil => rfl
+    | cons p rest =>
+      exfalso
+      have hp : p ∈ (iter (run (init t0 intfs) pre).1 now pkts cmds).1.cache.table sl := by rw [ht]; exact List.mem_cons_self
+      cases hes : p.2 with
+      | nil => exact hlive.2 sl p hp hes
+      | cons e es =>
+        have he : e ∈ p.2 := by rw [hes]; exact List.mem_cons_self
+        obtain ⟨⟨d, hd, j⟩, _⟩ := hprov sl p hp e he
+        have h1 := hlive.1 sl p hp e he
+        have h2 := j.2.2.2.2.2.2.2
+        have h3 := hover d hd
+        simp only at h1
+        omega
+  have h1 := hnone .ptr
+  have h2 := hnone .srv
+  have h3 := hnone .txt
+  have h4 := hnone .addr
+  have h5 := hnone .nsec
+  simp only [Cache.table] at h1 h2 h3 h4 h5
+  refine ⟨h1, h2, h3, h4, h5, ?_⟩
+  simp [cachedTotal, metricsOf, h1, h2, h3, h4, h5, tableCount]
+
+/-! ### timers: bounded by the horizon of the history, gone after it -/
+
+/-- the time-out a command asks for (0 if none) -/
+def cmdSpan : Command → Nat
+  | .resolveHost _ _ (some to) => to
+  | .verify _ to => to
+  | _ => 0
+
+/-- the end of the lifetime of a delivered record -/
+def lifeEnd (d : Delivery) : Nat := d.time + 1000 * d.wire.ttl
+
+/-- the horizon of one iteration at `now`: one hour ahead (the longest back-off of a
+    retransmission), the end of the lifetime of every record it delivers, the deadlines its
+    commands give -/
+def iterHorizon (now : Nat) (ds : List Delivery) (cmds : List Command) : Nat :=
+  max (now + 3600000) (max ((ds.map lifeEnd).foldl max 0) (now + (cmds.map cmdSpan).foldl max 0))
+
+/-- the horizon of a history: the latest of the horizons of its iterations -/
+def horizon : State → Nat → List (Nat × List Packet × List Command) → Nat
+  | _, H, [] => H
+  | s, H, (now, pkts, cmds) :: rest =>
+    horizon (iter s now pkts cmds).1 (max H (iterHorizon now (deliveries s now pkts) cmds)) rest
+
+theorem le_foldl_max : ∀ (l : List Nat) (a x : Nat), (x ≤ a ∨ x ∈ l) → x ≤ l.foldl max a
+  | [], a, x, h => by
+    rcases h with h | h
+    · exact h
+    · cases h
+  | y :: l, a, x, h => by
+    simp only [List.foldl_cons]
+    apply le_foldl_max l
+    rcases h with h | h
+    · left; omega
+    · rcases List.mem_cons.mp h with rfl | h
+      · left; omega
+      · exact Or.inr h
+
+/-- every timer is the interface check or lies within the horizon `H`; every delivered record's
+    lifetime ends within `H` -/
+def Bounded (H : Nat) (hist : List Delivery) (s : State) : Prop :=
+  (∀ t ∈ s.timers, t = s.nextIpCheck ∨ t ≤ H) ∧ ∀ d ∈ hist, lifeEnd d ≤ H
+
+theorem iterTimer_le (now : Nat) (hist ds : List Delivery) (cmds : List Command) (H : Nat) (hH : ∀ d ∈ hist, lifeEnd d ≤ H)
+    (t : Nat) (h : IterTimer now (hist ++ ds) cmds t) : t ≤ max H (iterHorizon now ds cmds) := by
+  unfold iterHorizon
+  rcases h with h | ⟨d, hd, h⟩ | ⟨c, hc, h⟩
+  · omega
+  · rcases List.mem_append.mp hd with hd | hd
+    · have := hH d hd
+      unfold lifeEnd at this
+      omega
+    · have h1 : lifeEnd d ≤ (ds.map lifeEnd).foldl max 0 := le_foldl_max _ 0 _ (Or.inr (List.mem_map_of_mem hd))
+      have h2 : d.time + 1000 * d.wire.ttl ≤ (ds.map lifeEnd).foldl max 0 := h1
+      omega
+  · have hspan : ∀ to, cmdSpan c = to → to ≤ (cmds.map cmdSpan).foldl max 0 := by
+      intro to hto
+      exact le_foldl_max _ 0 _ (Or.inr (hto ▸ List.mem_map_of_mem hc))
+    rcases h with ⟨h0, ch, to, rfl, h⟩ | ⟨inst, to, rfl, h⟩
+    · have := hspan to rfl
+      omega
+    · have := hspan to rfl
+      omega
+
+/-- the interface-check timer of the old state, if it lies after `now`, is still the
+    interface-check time of the new state -/
+theorem ip_kept {now : Nat} {ds : List Delivery} {cmds : List Command} {s s' : State} (h : Evolves now ds cmds s s')
+    (hlt : now < s.nextIpCheck) : s'.nextIpCheck = s.nextIpCheck := by
+  rcases h.ip with ⟨h1, _⟩ | ⟨_, h2⟩ | ⟨_, _, h2⟩
+  · exact h1
+  · omega
+  · omega
+
+theorem bounded_iter (hist : List Delivery) (H : Nat) (s : State) (now : Nat) (pkts : List Packet) (cmds : List Command)
+    (hc : CacheProv hist s.cache) (hD : ∀ r ∈ s.reruns, DelayOk r) (hb : Bounded H hist s) :
+    Bounded (max H (iterHorizon now (deliveries s now pkts) cmds)) (hist ++ deliveries s now pkts) (iter s now pkts cmds).1 := by
+  have hev := evolves_iter hist s now pkts cmds hc hD
+  refine ⟨?_, ?_⟩
+  · intro t ht
+    rcases hev.timers_new t ht with ⟨h1, h2⟩ | h | ⟨h, _⟩
+    · rcases hb.1 t h1 with h | h
+      · left
+        rw [h, ip_kept hev (h ▸ h2)]
+      · right; omega
+    · exact Or.inr (iterTimer_le now hist _ cmds H hb.2 t h)
+    · exact Or.inl h
+  · intro d hd
+    rcases List.mem_append.mp hd with hd | hd
+    · have := hb.2 d hd
+      omega
+    · have : lifeEnd d ≤ ((deliveries s now pkts).map lifeEnd).foldl max 0 :=
+        le_foldl_max _ 0 _ (Or.inr (List.mem_map_of_mem hd))
+      unfold iterHorizon
+      omega
+
+theorem bounded_run : ∀ (h : List (Nat × List Packet × List Command)) (s : State) (hist : List Delivery) (H : Nat),
+    CacheProv hist s.cache → (∀ r ∈ s.reruns, DelayOk r) → Bounded H hist s →
+    Bounded (horizon s H h) (hist ++ C03.histOf s h) (run s h).1 ∧ (∀ r ∈ (run s h).1.reruns, DelayOk r)
+  | [], s, hist, H, _, hD, hb => by simpa [horizon, C03.histOf, run] using ⟨hb, hD⟩
+  | (now, pkts, cmds) :: rest, s, hist, H, hc, hD, hb => by
+    have h1 := bounded_iter hist H s now pkts cmds hc hD hb
+    have h2 := bounded_run rest (iter s now pkts cmds).1 (hist ++ deliveries s now pkts) _
+      (ok_iter hist s now pkts cmds hc).1 (delayOk_iter hist s now pkts cmds hc hD) h1
+    simpa [horizon, C03.histOf, run, List.append_assoc] using h2
+
+/-- **timers_bounded (whole histories).**  Start the daemon and run ANY history: every pending
+    timer is the interface check or lies within the horizon of the history - one hour after
+    its last iteration (a retransmission is queued at most 3600 s ahead, and the timer of a
+    cancelled one stays until its time), the end of the lifetime of a delivered record, or a
+    deadline given with `resolve_hostname` / `verify`.  Nothing else is ever armed: the number
+    of live timers does not grow with running time. -/
+theorem timers_bounded (t0 : Nat) (intfs : List Intf) (h : List (Nat × List Packet × List Command)) :
+    ∀ t ∈ (run (init t0 intfs) h).1.timers,
+      t = (run (init t0 intfs) h).1.nextIpCheck ∨ t ≤ horizon (init t0 intfs) 0 h := by
+  have hb : Bounded 0 [] (init t0 intfs) :=
+    ⟨fun t ht => by simp [init] at ht; exact Or.inl ht, fun _ hd => by cases hd⟩
+  exact (bounded_run h (init t0 intfs) [] 0 (cacheProv_empty []) (fun _ hr => by cases hr) hb).1.1
+
+/-- a quiet iteration (no datagram, no command, nothing browsed, nothing queued) arms nothing
+    but the interface check, and leaves nothing browsed or queued -/
+theorem quiet_iter (H : Nat) (s : State) (now : Nat) (hq : s.queriers = []) (hr : s.reruns = [])
+    (hb : ∀ t ∈ s.timers, t = s.nextIpCheck ∨ t ≤ H) :
+    (iter s now [] []).1.queriers = [] ∧ (iter s now [] []).1.reruns = [] ∧
+    (∀ t ∈ (iter s now [] []).1.timers, t = (iter s now [] []).1.nextIpCheck ∨ (t ≤ H ∧ now < t)) := by
+  obtain ⟨h1, h2, h3, h4, _⟩ := quiet_preIp s now hq hr
+  have hold : ∀ t ∈ (preIp s now [] []).timers, (t = s.nextIpCheck ∧ now < t) ∨ (t ≤ H ∧ now < t) := by
+    intro t ht
+    rw [h1] at ht
+    obtain ⟨ht1, ht2⟩ := List.mem_filter.mp ht
+    have ht2' : now < t := by simpa using ht2
+    rcases hb t ht1 with h | h
+    · exact Or.inl ⟨h, ht2'⟩
+    · exact Or.inr ⟨h, ht2'⟩
+  rw [iter_fst]
+  rcases runIpCheck_cases (preIp s now [] []) now with ⟨he, _⟩ | ⟨he, _, hle⟩ | ⟨he, hle⟩
+  · rw [he]
+    refine ⟨h3, h2, ?_⟩
+    intro t ht
+    rcases hold t ht with ⟨h, _⟩ | h
+    · exact Or.inl (h.trans h4.symm)
+    · exact Or.inr h
+  · rw [he]
+    refine ⟨h3, h2, ?_⟩
+    intro t ht
+    rcases List.mem_cons.mp ht with rfl | ht
+    · exact Or.inl rfl
+    · rcases hold t ht with ⟨h, hlt⟩ | h
+      · rw [h4] at hle
+        omega
+      · exact Or.inr h
+  · rw [he]
+    refine ⟨h3, h2, ?_⟩
+    intro t ht
+    rcases hold t ht with ⟨h, hlt⟩ | h
+    · rw [h4] at hle
+      omega
+    · exact Or.inr h
+
+theorem quiet_run (H : Nat) : ∀ (tail : List Nat) (s : State), s.queriers = [] → s.reruns = [] →
+    (∀ t ∈ s.timers, t = s.nextIpCheck ∨ t ≤ H) →
+    (run s (tail.map fun t => (t, [], []))).1.queriers = [] ∧ (run s (tail.map fun t => (t, [], []))).1.reruns = [] ∧
+    (∀ t ∈ (run s (tail.map fun t => (t, [], []))).1.timers,
+      t = (run s (tail.map fun t => (t, [], []))).1.nextIpCheck ∨ t ≤ H)
+  | [], s, hq, hr, hb => ⟨hq, hr, hb⟩
+  | now :: rest, s, hq, hr, hb => by
+    obtain ⟨h1, h2, h3⟩ := quiet_iter H s now hq hr hb
+    simp only [List.map_cons, run]
+    exact quiet_run H rest _ h1 h2 (fun t ht => (h3 t ht).imp id (·.1))
+
+theorem run_append_fst : ∀ (a b : List (Nat × List Packet × List Command)) (s : State),
+    (run s (a ++ b)).1 = (run (run s a).1 b).1
+  | [], _, _ => rfl
+  | (now, pkts, cmds) :: a, b, s => by
+    simp only [List.cons_append, run]
+    exact run_append_fst a b _
+
+theorem histOf_quiet : ∀ (tail : List Nat) (s : State), C03.histOf s (tail.map fun t => (t, [], [])) = []
+  | [], _ => rfl
+  | t :: rest, s => by
+    simp only [List.map_cons, C03.histOf, deliveries, List.nil_append]
+    exact histOf_quiet rest _
+
+/-- **drained_run (whole histories).**  Start the daemon and run ANY history `pre` after which
+    nothing is browsed and no re-run is queued (every search stopped, the follow-ups done).
+    Then, after any number of further iterations without input (at any times `tail`), an
+    iteration at a time `now` that is not before the horizon of `pre` - i.e. at least one hour
+    after its last iteration, after the lifetime of every record it delivered and after every
+    deadline it was given - leaves: no record in any table of the cache (the counters of
+    `get_metrics` are 0), and no timer other than the interface check. -/
+theorem drained_run (t0 : Nat) (intfs : List Intf) (pre : List (Nat × List Packet × List Command)) (tail : List Nat)
+    (now : Nat) (hq : (run (init t0 intfs) pre).1.queriers = []) (hr : (run (init t0 intfs) pre).1.reruns = [])
+    (hnow : horizon (init t0 intfs) 0 pre ≤ now) :
+    let s' := (run (init t0 intfs) (pre ++ (tail.map fun t => (t, [], [])) ++ [(now, [], [])])).1
+    (∀ t ∈ s'.timers, t = s'.nextIpCheck) ∧
+    s'.cache.ptr = [] ∧ s'.cache.srv = [] ∧ s'.cache.txt = [] ∧ s'.cache.addr = [] ∧ s'.cache.nsec = [] ∧
+    cachedTotal s' = 0 := by
+  have hb0 : Bounded 0 [] (init t0 intfs) :=
+    ⟨fun t ht => by simp [init] at ht; exact Or.inl ht, fun _ hd => by cases hd⟩
+  have hb := (bounded_run pre (init t0 intfs) [] 0 (cacheProv_empty []) (fun _ hr => by cases hr) hb0).1
+  simp only [List.nil_append] at hb
+  obtain ⟨q1, q2, q3⟩ := quiet_run (horizon (init t0 intfs) 0 pre) tail _ hq hr hb.1
+  have hstate : (run (init t0 intfs) (pre ++ (tail.map fun t => (t, [], [])) ++ [(now, [], [])])).1 =
+      (iter (run (run (init t0 intfs) pre).1 (tail.map fun t => (t, [], []))).1 now [] []).1 := by
+    rw [run_append_fst, run_append_fst]
+    rfl
+  have hcache := drained_cache t0 intfs (pre ++ tail.map fun t => (t, [], [])) now [] [] (by
+    intro d hd
+    rw [C17.histOf_append, C17.histOf_append, histOf_quiet] at hd
+    simp only [C03.histOf, deliveries, List.append_nil] at hd
+    have := hb.2 d hd
+    unfold lifeEnd at this
+    omega)
+  simp only []
+  rw [hstate]
+  rw [run_append_fst] at hcache
+  refine ⟨?_, hcache⟩
+  intro t ht
+  rcases (quiet_iter _ _ now q1 q2 q3).2.2 t ht with h | ⟨h1, h2⟩
+  · exact h
+  · omega
+
+/-! non-vacuity: browse, an announcement with TTL 120 s, stop; one hour after the last activity
+    nothing is cached and the only timer is the interface check -/
+set_option maxRecDepth 8000 in
+example :
+    let s' := (run (init 1000 [C03.eth0])
+      [(1000, [], [.browse C03.ty 1 false]), (1500, [C03.announce], []), (2000, [], [.stopBrowse C03.ty]),
+       (2500, [], []), (3702000, [], [])]).1
+    (cachedTotal s', s'.timers, s'.nextIpCheck, s'.queriers.length, s'.reruns.length) =
+      (0, [3707000], 3707000, 0, 0) := by decide
+
+/-! ### the size of the cache -/
+
+/-- the identity (owner, type, class, cache-flush bit, RDATA incl. the receiving interface of an
+    address) under which a delivered record is cached -/
+def deliveryId (d : Delivery) : BList × Nat × Nat × Bool × RData :=
+  idOf ⟨ofWire d.ifName d.ifIdx d.time d.wire, d.ifName, d.ifIdx⟩
+
+/-- the distinct records among those delivered whose lifetime has not ended at `T` -/
+def liveIds (hist : List Delivery) (T : Nat) : List (BList × Nat × Nat × Bool × RData) :=
+  ((hist.filter fun d => decide (T < lifeEnd d)).map deliveryId).eraseDups
+
+theorem closed_run {P : Cache → Prop} (hcl : ∀ now, CacheOpsClosed P now) :
+    ∀ (h : List (Nat × List Packet × List Command)) (s : State), P s.cache → P (run s h).1.cache
+  | [], _, hp => hp
+  | (now, pkts, cmds) :: rest, s, hp => by
+    simp only [run]
+    exact closed_run hcl rest _ (closed_iter (hcl now) s pkts cmds hp)
+
+theorem cachedTotal_eq (s : State) : cachedTotal s = (cacheEntries s.cache).length := by
+  simp only [cachedTotal, metricsOf, tableCount_eq, cacheEntries, List.length_append]
+
+/-- **cache_size_bounded (whole histories).**  Start the daemon and run ANY history: the number
+    of cached records - the sum of the five cache counters of `get_metrics` - is at most the
+    number of DISTINCT records (owner, type, class, cache-flush bit, RDATA, and for an address
+    the receiving interface) among those delivered to the daemon whose lifetime has not ended
+    at the time of the last iteration.  It does not grow with the number of times a record is
+    repeated, nor with running time. -/
+theorem cache_size_bounded (t0 : Nat) (intfs : List Intf) (h : List (Nat × List Packet × List Command)) :
+    cachedTotal (run (init t0 intfs) h).1 ≤ (liveIds (C03.histOf (init t0 intfs) h) (C17.lastTime 0 h)).length := by
+  have hprov := C17.run_prov h t0 intfs
+  have hkeys : KeysNodup (run (init t0 intfs) h).1.cache := closed_run keysNodup_closed h _ keysNodup_empty
+  have hdist : ListsDistinct (run (init t0 intfs) h).1.cache := closed_run listsDistinct_closed h _ listsDistinct_empty
+  have hnd := cache_ids_nodup _ _ hprov hkeys hdist
+  rw [cachedTotal_eq, ← List.length_map (f := idOf)]
+  apply List.Nodup.length_le_of_subset hnd
+  intro x hx
+  obtain ⟨e, he, rfl⟩ := List.mem_map.mp hx
+  have hmem : ∃ sl : Slot, ∃ p ∈ (run (init t0 intfs) h).1.cache.table sl, e ∈ p.2 := by
+    simp only [cacheEntries, List.mem_append, mem_tableEntries] at he
+    rcases he with (((he | he) | he) | he) | he
+    · exact ⟨.ptr, he⟩
+    · exact ⟨.srv, he⟩
+    · exact ⟨.txt, he⟩
+    · exact ⟨.addr, he⟩
+    · exact ⟨.nsec, he⟩
+  obtain ⟨sl, p, hp, hep⟩ := hmem
+  obtain ⟨_, d, hd, j, hlive⟩ := cache_bounded t0 intfs h sl p hp e hep
+  simp only [liveIds, List.mem_eraseDups, List.mem_map, List.mem_filter, decide_eq_true_eq]
+  refine ⟨d, ⟨hd, hlive⟩, ?_⟩
+  obtain ⟨j1, j2, j3, j4, j5, _⟩ := j
+  simp only [deliveryId, idOf, Prod.mk.injEq]
+  exact ⟨j1.symm, j2.symm, j3.symm, j4.symm, j5.symm⟩
+
+/-- the same announcement (PTR, SRV, TXT, A) received twice: four cached records, four distinct
+    live delivered records (eight deliveries) -/
+example :
+    (cachedTotal (run (init 1000 [C03.eth0])
+        [(1000, [], [.browse C03.ty 1 false]), (1500, [C03.announce], []), (1600, [C03.announce], [])]).1,
+     (liveIds (C03.histOf (init 1000 [C03.eth0])
+        [(1000, [], [.browse C03.ty 1 false]), (1500, [C03.announce], []), (1600, [C03.announce], [])]) 1600).length,
+     (C03.histOf (init 1000 [C03.eth0])
+        [(1000, [], [.browse C03.ty 1 false]), (1500, [C03.announce], []), (1600, [C03.announce], [])]).length) =
+      (4, 4, 8) := by decide
+
+end ClientModel
 
 end Mdns.Props.C20
